@@ -8,7 +8,7 @@ from vlib.core import Outcome, Sub
 from vlib import drive
 
 PROPERTY = "C14"
-RULE = ("case: strategy in {dimension-wise (versions 6/2/3/7/8, rebalancing, boundary), extend-split (versions 0-2)}, d 2-3, a built-in "
+RULE = ("case: strategy in {dimension-wise (versions 6/2/3/7/8, rebalancing, boundary), extend-split (versions 0-2), cell (lmin=lmax)}, d 2-3, a built-in "
         "(dill-picklable) integrand with drawn parameters, the library's own error estimators (dimension-wise also a stateless scripted estimator that refines towards one target point: strongly one-sided trees, rebalancing rotations), final limit K2. The uninterrupted run "
         "(final limits: max_evaluations=K2 and either no tolerance or an error value observed in the tol=-1 history) is recorded; then EVERY evaluation index k of that run (all of them in the thorough tier and whenever "
         "the history has <= 8 evaluations, otherwise a drawn subset of 8) is used as interruption point: a fresh run with "
@@ -85,6 +85,16 @@ def build(case):
         if case.get("estimator") == "target":
             r = np.random.default_rng(case["fseed"] + 3)
             err = make_target_err([float(x) for x in r.uniform(0.03, 0.97, dim)], case.get("bg", 0.0))
+    elif case["kind"] == "cell":
+        from sparseSpACE.spatiallyAdaptiveCell import SpatiallyAdaptiveCellScheme
+        from sparseSpACE.Grid import TrapezoidalGrid
+        from sparseSpACE.ErrorCalculator import ErrorCalculatorSurplusCell
+        grid = TrapezoidalGrid(a, b, boundary=True)
+        op = Integration(f, grid=grid, dim=dim, reference_solution=ref, print_level=drive.Q, log_level=drive.Q)
+        sa = SpatiallyAdaptiveCellScheme(a, b, operation=op)
+        sa.log_util.set_print_level(drive.Q)
+        sa.log_util.set_log_level(drive.Q)
+        err = ErrorCalculatorSurplusCell()
     else:
         from sparseSpACE.spatiallyAdaptiveExtendSplit import SpatiallyAdaptiveExtendScheme
         from sparseSpACE.Grid import TrapezoidalGrid
@@ -102,6 +112,9 @@ def snapshot(sa, kind):
     if kind == "dw":
         ref = [[(float(o.start), float(o.end), tuple(int(x) for x in o.levels), int(o.coarsening_level)) for o in drive.dw_objects(sa, d)]
                for d in range(sa.dim)]
+    elif kind == "cell":
+        ref = sorted((tuple(float(x) for x in o.start), tuple(float(x) for x in o.end), bool(o.active))
+                     for o in sa.refinement.get_objects())
     else:
         ref = sorted((tuple(float(x) for x in o.start), tuple(float(x) for x in o.end), int(o.coarseningValue), int(o.needExtendScheme))
                      for o in sa.refinement.get_objects())
@@ -124,7 +137,7 @@ def cont(sa, maxev, tol=-1):
 def observable(sa, pts):
     """what a user can ask a (restored) instance without evaluating further"""
     with drive.quiet():
-        vals = np.asarray(sa(pts))
+        vals = np.asarray(sa(pts)) if not type(sa).__name__.startswith("SpatiallyAdaptiveCell") else np.zeros(1)   # the cell scheme has no interpolation
         res = np.asarray(sa.operation.get_result(), dtype=float)
         n = sa.get_total_num_points()
         pw = None
@@ -256,6 +269,9 @@ def _strategy(kind):
                          estimator=draw(st.sampled_from(["library", "library", "target"])), bg=draw(st.sampled_from([0.0, 0.5, 1.5])))
                 if c["estimator"] == "target":
                     c["maxev"] = draw(st.integers(30, 120))     # one interval per step: keep the history short
+            elif kind == "cell":
+                c.update(lmin=draw(st.integers(1, 2)), version=0, maxev=draw(st.integers(30, 300)))
+                c["lmax"] = c["lmin"]
             else:
                 c.update(lmin=1, lmax=2, version=draw(st.sampled_from([0, 0, 1, 2])), nref=draw(st.integers(0, 2)),
                          maxev=draw(st.integers(60, 900)))
@@ -276,4 +292,5 @@ def selftest():
 SUBS = [
     Sub("dw", _strategy("dw"), run, dict(quick=64, thorough=1200), budget_s=dict(quick=50, thorough=600), case_timeout=300),
     Sub("es", _strategy("es"), run, dict(quick=48, thorough=1000), budget_s=dict(quick=50, thorough=600), case_timeout=300),
+    Sub("cell", _strategy("cell"), run, dict(quick=32, thorough=800), budget_s=dict(quick=25, thorough=400), case_timeout=300),
 ]
